@@ -15,7 +15,7 @@
   operations — i.e. every operation sequence in every grouping into conjunctions.
 -/
 import PrologVerif.Proofs.StreamOps
-import PrologVerif.Model.StreamOut
+import PrologVerif.Proofs.StreamOut
 import PrologVerif.Model.ClauseScanner
 namespace PrologVerif.C19
 open PrologVerif PrologVerif.Stream PrologVerif.Stream.Spec
@@ -65,8 +65,9 @@ theorem C19_refines_cursor (c : Cfg) (hv : c.Valid) (sc : Scanner σ) (prog : Li
   obtain ⟨cu, hj, hs⟩ := runProg_sim hv sc prog (sim_init c)
   exact ⟨cu, hj, hs.pos_eq, hs.past_iff, hs.end_of⟩
 
-/-- every reachable stream is in the simulation relation with some cursor -/
-theorem reachable_sim {c : Cfg} (hv : c.Valid) {sc : Scanner σ} {s : Stream} (h : Reachable c sc s) :
+/-- **C19_reachable_sim**: every reachable stream is in the simulation relation with some cursor of the
+    specification (the invariant behind the theorems below) -/
+theorem C19_reachable_sim {c : Cfg} (hv : c.Valid) {sc : Scanner σ} {s : Stream} (h : Reachable c sc s) :
     ∃ cu, Sim c s cu := by
   obtain ⟨prog, rfl⟩ := h
   obtain ⟨cu, _, hs⟩ := runProg_sim hv sc prog (sim_init c)
@@ -77,7 +78,7 @@ theorem reachable_sim {c : Cfg} (hv : c.Valid) {sc : Scanner σ} {s : Stream} (h
     totalisations are never exercised. -/
 theorem C19_no_internal_error (c : Cfg) (hv : c.Valid) (sc : Scanner σ) (s : Stream) (hr : Reachable c sc s)
     (o : Op) : (stepOp c sc o s).1 ≠ .err .other := by
-  obtain ⟨cu, hs⟩ := reachable_sim hv hr
+  obtain ⟨cu, hs⟩ := C19_reachable_sim hv hr
   obtain ⟨_, _, _, hne⟩ := stepOp_sim hv sc hs o
   exact hne
 
@@ -108,7 +109,7 @@ theorem C19_peek_idempotent (c : Cfg) (hv : c.Valid) (sc : Scanner σ) (s : Stre
        (stepOp c sc .peekByte s).2.endOfStream = s.endOfStream ∨
        ((stepOp c sc .peekByte s).1 = .eofByte ∧ s.endOfStream = .not ∧
          (stepOp c sc .peekByte s).2.endOfStream = .at))) := by
-  obtain ⟨cu, hs⟩ := reachable_sim hv hr
+  obtain ⟨cu, hs⟩ := C19_reachable_sim hv hr
   constructor
   · obtain ⟨hres, _, hpk⟩ := readRune_sim hv hs
     obtain ⟨hres2, _, _⟩ := readRune_sim hv hpk
@@ -161,7 +162,7 @@ theorem C19_eos_sound (c : Cfg) (hv : c.Valid) (sc : Scanner σ) (s : Stream) (h
         (stepOp c sc .getChar s).1 = .eof ∧ (stepOp c sc .getChar s).2.endOfStream = .past) ∧
       (c.action ≠ .error → c.typ = .binary →
         (stepOp c sc .getByte s).1 = .eofByte ∧ (stepOp c sc .getByte s).2.endOfStream = .past)) := by
-  obtain ⟨cu, hs⟩ := reachable_sim hv hr
+  obtain ⟨cu, hs⟩ := C19_reachable_sim hv hr
   refine ⟨?_, ⟨?_, ?_, ?_⟩, ?_⟩
   · intro hne; rw [hs.cur_eq]; exact hs.end_of hne
   · intro he
@@ -253,7 +254,7 @@ theorem C19_utf8 (c : Cfg) (hv : c.Valid) (sc : Scanner σ) (s : Stream) (hr : R
       (stepOp c sc .getChar s).2.position = s.position + 1 ∧
       (stepOp c sc .peekChar s).1 = .err .reprChar ∧
       (stepOp c sc .peekChar s).2.position = s.position) := by
-  obtain ⟨cu, hs⟩ := reachable_sim hv hr
+  obtain ⟨cu, hs⟩ := C19_reachable_sim hv hr
   have hd : cu.delivered = false := by
     cases hd : cu.delivered with
     | false => rfl
@@ -308,23 +309,6 @@ theorem C19_utf8_invalid_lead (b : Nat) (rest : List Nat) (h : (0x80 ≤ b ∧ b
 /-! ### output -/
 
 open PrologVerif.StreamOut in
-theorem out_runConj (typ : StreamType) (q : List OutOp) (s : Sink) :
-    (StreamOut.runConj typ q s).2.bytes = s.bytes ++ specConj typ q ∧
-    (StreamOut.runConj typ q s).2.position = s.position + ((specConj typ q).length : Int) := by
-  induction q generalizing s with
-  | nil => simp [StreamOut.runConj, specConj]
-  | cons o os ih =>
-    simp only [StreamOut.runConj, StreamOut.runOp, specConj]
-    cases hb : opBytes typ o with
-    | error e => simp
-    | ok p =>
-      simp only
-      obtain ⟨i1, i2⟩ := ih (s.write p)
-      rw [i1, i2]
-      simp only [Sink.write, List.append_assoc, List.length_append, true_and]
-      omega
-
-open PrologVerif.StreamOut in
 /-- **C19_output_order**: for every sequence of queries made of put_char / nl / put_byte / write /
     writeq goals on an output stream of either type, the sink has received exactly the bytes of the
     goals that succeeded, each completely, in program order (an error ends its conjunction and sends
@@ -337,7 +321,7 @@ theorem C19_output_order (typ : StreamType) (prog : List (List StreamOut.OutOp))
   | cons q qs ih =>
     simp only [StreamOut.runProg]
     obtain ⟨i1, i2⟩ := ih (StreamOut.runConj typ q s).2
-    obtain ⟨j1, j2⟩ := out_runConj typ q s
+    obtain ⟨j1, j2⟩ := StreamOut.out_runConj typ q s
     rw [i1, i2, j1, j2]
     simp only [specSink, List.map_cons, List.flatten_cons, List.append_assoc, List.length_append, true_and]
     omega
